@@ -58,7 +58,7 @@ META = {
 
 TIERS = {
     'quick': dict(mc='MC_Encryption.cfg', trace='Trace_Encryption.cfg', sim='Sim_Encryption.cfg',
-                  fills=['rand', 'runs'], mk=[16, 32], sims=22, depth=10),
+                  fills=['rand', 'runs'], mk=[16, 32], sims=34, depth=10),
     'thorough': dict(mc='MC_Encryption_thorough.cfg', trace='Trace_Encryption_thorough.cfg', sim='Sim_Encryption.cfg',
                      fills=['rand', 'runs', 'text', 'zero', 'ff'], mk=[16, 32], sims=160, depth=12),
 }
